@@ -134,7 +134,9 @@ def check(case):
         if any(i["outline"] is not None for f in prog["features"] for i in scenario_instances(f)
                if i["name"] in want_names):
             res.label("row-listed")
-        if prog.get("hook_faults"):
+        if any(k == "skip_feature" for _i, k in prog.get("hook_faults") or []):
+            res.label("feature.skip()-after-a-failure")
+        elif prog.get("hook_faults"):
             res.label("hook-fault")
         if case.get("inherited_setup_tag"):
             res.label("inherited-@setup/@teardown")
@@ -153,8 +155,12 @@ def case_st(draw):
     prog = draw(gen.program_st(max_features=n, faults=False, max_items=3,
                                outcomes=["pass", "pass", "fail", "raise", "undefined", "pending", "skip", "convert"],
                                cfg=gen.cfg_st(flags=("stop",), p_tags=0.3)))
-    if draw(st.integers(0, 3)) == 0:
+    f = draw(st.integers(0, 7))
+    if f in (0, 1):
         prog["hook_faults"] = [[draw(st.integers(0, 10000)), "Exception"]]
+    elif f == 2:
+        # an after_scenario hook skips the rest of its feature (feature.skip() on a partly executed feature)
+        prog["hook_faults"] = [[draw(st.integers(0, 10000)), "skip_feature"]]
     case = {"program": prog, "stale": draw(st.integers(0, 3)) == 0,
             "rerun_file": draw(st.sampled_from(["rerun.txt", "rerun.txt", "reports/rerun.txt", "features/rerun.features"]))}
     if draw(st.booleans()):
@@ -183,7 +189,7 @@ def explore(rec):
 
 def required_labels(tier):
     return ["no-failures", "failures", "kind:failed", "kind:error", "rerun-file:subdir", "stale-removed",
-            "stale-overwritten", "row-listed", "hook-fault", "listed-name-not-unique", "inherited-@setup/@teardown"]
+            "stale-overwritten", "row-listed", "hook-fault", "listed-name-not-unique", "inherited-@setup/@teardown", "feature.skip()-after-a-failure"]
 
 
 KNOWN_PREDICATES = {}
